@@ -2592,6 +2592,12 @@ func (db *DB) WriteLTXFileAt(ctx context.Context, r io.Reader) (string, error) {
 		return "", fmt.Errorf("decode ltx header: %w", err)
 	}
 
+	// The pages of a transaction file can only be written to a database with
+	// the same page size. Applying the file would fail halfway otherwise.
+	if db.pageSize != 0 && db.PageN() > 0 && hdr.PageSize != db.pageSize {
+		return "", fmt.Errorf("ltx page size (%d) does not match database page size (%d)", hdr.PageSize, db.pageSize)
+	}
+
 	// Validate TXID/preApplyChecksum before renaming.
 	prevPos := db.Pos()
 	if !hdr.IsSnapshot() {
